@@ -9,7 +9,7 @@ from vlib import build_lib
 
 THEOREMS = ["C18_table_inv", "C18_table_inv_step", "C18_stale_skipped_oneshot", "C18_stale_skipped_stream", "C18_fastReset_any_state", "C18_history_roundtrip", "C18_hc_mid_reuse", "C18_hc_mid_step", "C18_hc_mid_fastReset", "C18_hc_mid_history"]
 ORACLES = ["stream"]
-CORRESPONDENCE = ["Model.HcMidStream (HC levels 1-2: initStreamHC, resetStreamHC(_fast), setCompressionLevel, loadDictHC/LZ4MID_fillHTable, attach_HC_dictionary bookkeeping, setExternalDict, overlap trimming, 2 GB reload, compress_HC_continue(_destSize), saveDictHC, extStateHC(_fastReset)) == lib/lz4hc.c: return value, consumed, bytes, both LZ4MID hash tables, end/prefixStart/dictStart (arena addresses), dictLimit/lowLimit/nextToUpdate, level, dirty, dictCtx null/non-null after EVERY mirrored call; calls at levels >= 3 or reaching the dictionary-context search are outside the model (state re-imported afterwards)",
+CORRESPONDENCE = ["Model.HcMidStream (HC levels 1-2: initStreamHC, resetStreamHC(_fast), setCompressionLevel, loadDictHC/LZ4MID_fillHTable, attach_HC_dictionary with the dictionary context copied / detached / searched in place (LZ4MID_searchExtDict = Model.HcMidDict), setExternalDict, overlap trimming, 2 GB reload, compress_HC_continue(_destSize), saveDictHC (fixes F17, F18), extStateHC(_fastReset)) == lib/lz4hc.c: return value, consumed, bytes, both LZ4MID hash tables, end/prefixStart/dictStart (arena addresses), dictLimit/lowLimit/nextToUpdate, level, dirty, dictCtx null/non-null after EVERY mirrored call; calls at levels >= 3 or searching a dictionary context whose stream is at a level >= 3 (LZ4MID_searchHCDict) are outside the model (state re-imported afterwards)",
                   "Model.FastStream / Model.FastApi (prepareTable reset conditions, fastReset one-shots, extState, destSize_extState, resetStream_fast, "
                   "streaming sessions, loadDict, attach, failed calls) == lib/lz4.c: return value, output bytes and whole public stream state after EVERY operation of the history"]
 RULE = ("histories of 14..40 operations on ONE context: fast-reset one-shots of size classes {<4KB, 4KB..64KB+11 (16-bit table), >=65547 (32-bit table)}, "
